@@ -29,10 +29,11 @@ const (
 	KModifies
 	KCover
 	KAssertCall // call-site assertion on a callee: "atcall KEY requires EXPR"
+	KValInv     // invariant of every value of a struct type stored in a map: "valinv T (v T) :: EXPR"
 )
 
 func (k ClauseKind) String() string {
-	return [...]string{"requires", "ensures", "invariant", "modifies", "cover", "atcall"}[k]
+	return [...]string{"requires", "ensures", "invariant", "modifies", "cover", "atcall", "valinv"}[k]
 }
 
 type Clause struct {
@@ -46,7 +47,8 @@ type Clause struct {
 	File   string
 	Line   int
 	// AtCall: callee key this clause attaches to (KAssertCall)
-	Callee string
+	Callee    string
+	Overrides string // label of the callee clause this call-site clause replaces
 	// Free: skip assumption of this ensures at call sites unless tag selected (unused)
 }
 
@@ -95,8 +97,7 @@ type PkgSpec struct {
 	Uses     []string // trusted spec files used
 	Stable   []string
 	Guarded  map[string]string // component -> mutex expr
-	GenFile  string
-	GenBytes []byte
+	GenFiles map[string][]byte
 }
 
 var kwRe = regexp.MustCompile(`^(requires|ensures|modifies|cover|loop|results|nopanic|inline|unroll|atcall|handler|intmode)\b`)
@@ -215,6 +216,24 @@ func parseSpecFile(path string, ps *PkgSpec, trustedFile bool) error {
 			for _, c := range strings.Fields(parts[1]) {
 				ps.Guarded[c] = strings.TrimSpace(parts[0])
 			}
+		case strings.HasPrefix(t, "valinv "):
+			// valinv TYPE (v TYPE) :: EXPR #label @tags
+			rest := strings.TrimPrefix(t, "valinv ")
+			sp := strings.Index(rest, " ")
+			tname := rest[:sp]
+			text, label, tags := splitLabelTags(" " + rest[sp+1:])
+			var fs *FuncSpec
+			for _, x := range ps.Funcs {
+				if x.Key == "valinv:"+tname {
+					fs = x
+				}
+			}
+			if fs == nil {
+				fs = &FuncSpec{Key: "valinv:" + tname, Ghost: true, File: path, Line: ln}
+				ps.Funcs = append(ps.Funcs, fs)
+			}
+			fs.Clauses = append(fs.Clauses, &Clause{Kind: KValInv, Text: text, Label: label, Tags: tags, File: path, Line: ln, Callee: tname})
+			cur = nil
 		case strings.HasPrefix(t, "ghost var "):
 			ps.RawGo = append(ps.RawGo, "var "+strings.TrimPrefix(t, "ghost var "))
 			cur = nil
@@ -321,12 +340,26 @@ func parseSpecFile(path string, ps *PkgSpec, trustedFile bool) error {
 				cur.Clauses = append(cur.Clauses, &Clause{Kind: KInvariant, Text: text, Label: label, Tags: tags, Loop: k, Locals: locals, File: path, Line: ln})
 			case "atcall":
 				// atcall CALLEEKEY requires EXPR   (expression over the callee's parameters p0.. / named)
+				// atcall KEY requires (params) :: EXPR      additional call-site assertion
+				// atcall KEY overrides LABEL (params) :: EXPR  replaces the callee's clause LABEL at the call sites in this function
 				idx := strings.Index(rest, " requires ")
+				overrides := ""
+				skip := 10
 				if idx < 0 {
-					return fmt.Errorf("%s:%d: atcall KEY requires EXPR", path, ln)
+					idx = strings.Index(rest, " overrides ")
+					if idx < 0 {
+						return fmt.Errorf("%s:%d: atcall KEY requires|overrides ...", path, ln)
+					}
+					r3 := strings.TrimSpace(rest[idx+11:])
+					sp := strings.IndexAny(r3, " (")
+					overrides = r3[:sp]
+					skip = 11 + strings.Index(rest[idx+11:], overrides) + len(overrides)
 				}
-				text, label, tags := splitLabelTags(" " + rest[idx+10:])
-				cur.Clauses = append(cur.Clauses, &Clause{Kind: KAssertCall, Callee: strings.TrimSpace(rest[:idx]), Text: text, Label: label, Tags: tags, File: path, Line: ln})
+				text, label, tags := splitLabelTags(" " + rest[idx+skip:])
+				if overrides != "" && label == "" {
+					label = overrides + ".override"
+				}
+				cur.Clauses = append(cur.Clauses, &Clause{Kind: KAssertCall, Callee: strings.TrimSpace(rest[:idx]), Text: text, Label: label, Tags: tags, File: path, Line: ln, Overrides: overrides})
 			default:
 				text, label, tags := splitLabelTags(" " + rest)
 				kind := map[string]ClauseKind{"requires": KRequires, "ensures": KEnsures, "cover": KCover}[kw]
@@ -642,6 +675,7 @@ func nanosTime(n int64) time_.Time { panic("ghost") }
 func dynTypeIs(x any, name string) bool { panic("ghost") }
 func refOf(x any) uintptr { panic("ghost") }
 func fresh(x any) bool { panic("ghost") }
+func fmtLiteralPrefix(format string) string { panic("ghost") }
 func httpStatus(w any) int { panic("ghost") }
 `
 
@@ -655,13 +689,7 @@ func (ps *PkgSpec) generate(trustedDir string) error {
 	imports := map[string]string{} // alias -> path
 	addImport := func(alias, path string) error {
 		if alias == "" {
-			alias = filepath.Base(path)
-			if alias == "v4" || alias == "v2" || alias == "v3" {
-				alias = filepath.Base(filepath.Dir(path))
-			}
-			alias = strings.TrimPrefix(alias, "go-")
-			alias = strings.ReplaceAll(alias, "-", "_")
-			alias = strings.ReplaceAll(alias, ".", "_")
+			alias = defaultAlias(path)
 		}
 		if alias == "." || alias == "_" {
 			return nil
@@ -693,15 +721,35 @@ func (ps *PkgSpec) generate(trustedDir string) error {
 		ps.Funcs = append(ps.Funcs, tp.Funcs...)
 		ps.Stable = append(ps.Stable, tp.Stable...)
 	}
-	var body strings.Builder
-	body.WriteString(preludeGo)
+	var mainBody strings.Builder
+	mainBody.WriteString(preludeGo)
 	for _, l := range ps.RawGo {
-		body.WriteString(l + "\n")
+		mainBody.WriteString(l + "\n")
 	}
+	// spec functions of /repo functions go to one synthetic file per source file, so that the import
+	// names used in the copied signatures mean what they mean in that file
+	type genFile struct {
+		body    strings.Builder
+		imports map[string]string
+	}
+	perFile := map[string]*genFile{}
+	body := &mainBody
 	n := 0
 	for _, fs := range ps.Funcs {
 		var recvDecl, paramDecl, resDecl string
 		var pnames, rnames []string
+		if strings.HasPrefix(fs.Key, "valinv:") {
+			for _, c := range fs.Clauses {
+				n++
+				c.GoName = fmt.Sprintf("spec_%d_%s", n, c.Kind)
+				txt := strings.TrimSpace(c.Text)
+				end := matchParen(txt, 0)
+				rest := strings.TrimPrefix(strings.TrimSpace(txt[end+1:]), "::")
+				fmt.Fprintf(&mainBody, "func %s(%s) bool { return %s }\n", c.GoName, txt[1:end], conv(rest))
+			}
+			fs.PkgPath = ps.PkgPath
+			continue
+		}
 		if fs.Trusted {
 			// Sig: "(params) (results)" or "(params) T" or "(params)"
 			sig := fs.Sig
@@ -722,11 +770,30 @@ func (ps *PkgSpec) generate(trustedDir string) error {
 			if sf == nil {
 				return fmt.Errorf("%s:%d: function %s not found in %s", fs.File, fs.Line, fs.Key, ps.Dir)
 			}
-			for p, a := range sf.imports {
-				if err := addImport(a, p); err != nil {
-					return err
+			fname := filepath.Base(sf.fset.Position(sf.file.Pos()).Filename)
+			gf := perFile[fname]
+			if gf == nil {
+				gf = &genFile{imports: map[string]string{}}
+				perFile[fname] = gf
+				for p, a := range sf.imports {
+					if a == "" {
+						a = defaultAlias(p)
+					}
+					if a != "." && a != "_" {
+						gf.imports[a] = p
+					}
+				}
+				// imports requested by the contract file itself win only if the name is free
+				for a, p := range ps.Imports {
+					if _, ok := gf.imports[a]; !ok {
+						gf.imports[a] = p
+					}
+				}
+				if _, ok := gf.imports["time_"]; !ok {
+					gf.imports["time_"] = "time"
 				}
 			}
+			body = &gf.body
 			if sf.decl.Recv != nil {
 				rd, rn := fieldListDecl(sf.fset, sf.decl.Recv, "recv", nil)
 				recvDecl = rd
@@ -736,6 +803,9 @@ func (ps *PkgSpec) generate(trustedDir string) error {
 			paramDecl = pd
 			pnames = append(pnames, pn...)
 			resDecl, rnames = fieldListDecl(sf.fset, sf.decl.Type.Results, "ret", fs.Results)
+		}
+		if fs.Trusted {
+			body = &mainBody
 		}
 		fs.ParamNames = pnames
 		fs.ResultNames = rnames
@@ -765,43 +835,61 @@ func (ps *PkgSpec) generate(trustedDir string) error {
 					cp := txt[1:end]
 					rest := strings.TrimSpace(txt[end+1:])
 					rest = strings.TrimPrefix(rest, "::")
-					fmt.Fprintf(&body, "func %s(%s) bool { return %s }\n", c.GoName, join(params, cp), conv(rest))
+					fmt.Fprintf(body, "func %s(%s) bool { return %s }\n", c.GoName, join(params, cp), conv(rest))
 				} else {
-					fmt.Fprintf(&body, "func %s(%s) bool { return %s }\n", c.GoName, params, conv(c.Text))
+					fmt.Fprintf(body, "func %s(%s) bool { return %s }\n", c.GoName, params, conv(c.Text))
 				}
 			case KEnsures, KCover:
-				fmt.Fprintf(&body, "func %s(%s) bool { return %s }\n", c.GoName, join(params, resDecl), conv(c.Text))
+				fmt.Fprintf(body, "func %s(%s) bool { return %s }\n", c.GoName, join(params, resDecl), conv(c.Text))
 			case KInvariant:
-				fmt.Fprintf(&body, "func %s(%s) bool { return %s }\n", c.GoName, join(params, strings.Join(c.Locals, ", ")), conv(c.Text))
+				fmt.Fprintf(body, "func %s(%s) bool { return %s }\n", c.GoName, join(params, strings.Join(c.Locals, ", ")), conv(c.Text))
 			case KModifies:
 				t := strings.TrimSpace(c.Text)
 				switch {
 				case strings.HasPrefix(t, "elems(") && strings.HasSuffix(t, ")"):
-					fmt.Fprintf(&body, "func %s(%s) { modElems(%s) }\n", c.GoName, join(params, resDecl), t[6:len(t)-1])
+					fmt.Fprintf(body, "func %s(%s) { modElems(%s) }\n", c.GoName, join(params, resDecl), t[6:len(t)-1])
 				case strings.HasPrefix(t, "map(") && strings.HasSuffix(t, ")"):
-					fmt.Fprintf(&body, "func %s(%s) { modMap(%s) }\n", c.GoName, join(params, resDecl), t[4:len(t)-1])
+					fmt.Fprintf(body, "func %s(%s) { modMap(%s) }\n", c.GoName, join(params, resDecl), t[4:len(t)-1])
 				case strings.HasPrefix(t, "ptr(") && strings.HasSuffix(t, ")"):
-					fmt.Fprintf(&body, "func %s(%s) { modAddr(%s) }\n", c.GoName, join(params, resDecl), t[4:len(t)-1])
+					fmt.Fprintf(body, "func %s(%s) { modAddr(%s) }\n", c.GoName, join(params, resDecl), t[4:len(t)-1])
 				default:
-					fmt.Fprintf(&body, "func %s(%s) { modAddr(&(%s)) }\n", c.GoName, join(params, resDecl), t)
+					fmt.Fprintf(body, "func %s(%s) { modAddr(&(%s)) }\n", c.GoName, join(params, resDecl), t)
 				}
 			}
 		}
 	}
-	text := body.String()
-	var hdr strings.Builder
-	fmt.Fprintf(&hdr, "package %s\n\n", pkgName)
-	var aliases []string
-	for a := range imports {
-		aliases = append(aliases, a)
-	}
-	sort.Strings(aliases)
-	for _, a := range aliases {
-		if regexp.MustCompile(`\b` + regexp.QuoteMeta(a) + `\.`).MatchString(text) {
-			fmt.Fprintf(&hdr, "import %s %q\n", a, imports[a])
+	ps.GenFiles = map[string][]byte{}
+	emit := func(name, text string, imps map[string]string) {
+		var hdr strings.Builder
+		fmt.Fprintf(&hdr, "package %s\n\n", pkgName)
+		var aliases []string
+		for a := range imps {
+			aliases = append(aliases, a)
 		}
+		sort.Strings(aliases)
+		for _, a := range aliases {
+			if regexp.MustCompile(`\b` + regexp.QuoteMeta(a) + `\.`).MatchString(text) {
+				fmt.Fprintf(&hdr, "import %s %q\n", a, imps[a])
+			}
+		}
+		ps.GenFiles[filepath.Join(ps.Dir, name)] = []byte(hdr.String() + text)
 	}
-	ps.GenFile = filepath.Join(ps.Dir, "zz_verif_spec_gen.go")
-	ps.GenBytes = []byte(hdr.String() + text)
+	emit("zz_verif_spec_gen.go", mainBody.String(), imports)
+	for fname, gf := range perFile {
+		emit("zz_verif_spec_gen_"+strings.TrimSuffix(fname, ".go")+".go", gf.body.String(), gf.imports)
+	}
 	return nil
+}
+
+func defaultAlias(path string) string {
+	alias := filepath.Base(path)
+	if len(alias) >= 2 && alias[0] == 'v' && alias[1] >= '0' && alias[1] <= '9' {
+		alias = filepath.Base(filepath.Dir(path))
+	}
+	alias = strings.TrimPrefix(alias, "go-")
+	alias = strings.TrimSuffix(alias, ".v2")
+	alias = strings.TrimSuffix(alias, ".v3")
+	alias = strings.ReplaceAll(alias, "-", "_")
+	alias = strings.ReplaceAll(alias, ".", "_")
+	return alias
 }
